@@ -433,6 +433,20 @@ func searchIntKey(p *thrift.BinaryProtocol, id int) (tt thrift.Type, start int, 
 	return
 }
 
+// pathFitsType tells if a path of type pt can address a child of a value of type t
+func pathFitsType(pt PathType, t thrift.Type) bool {
+	switch pt {
+	case PathFieldId, PathFieldName:
+		return t == thrift.STRUCT
+	case PathIndex:
+		return t == thrift.LIST || t == thrift.SET
+	case PathStrKey, PathIntKey, PathBinKey:
+		return t == thrift.MAP
+	default:
+		return true
+	}
+}
+
 // GetByPath searches longitudinally and return a sub node at the given path from the node.
 //
 // The path is a list of PathFieldId, PathIndex, PathStrKey, PathBinKey, PathIntKey,
@@ -455,13 +469,17 @@ func (self Node) GetByPath(pathes ...Path) Node {
 	var err error
 
 	for i, path := range pathes {
+		if !pathFitsType(path.t, tt) {
+			return errNode(meta.ErrUnsupportedType, fmt.Sprintf("%dth path %s doesn't fit type %s", i, path, tt), nil)
+		}
 		switch path.t {
 		case PathFieldId:
 			tt, start, err = searchFieldId(&p, path.id())
-			isList = self.t == thrift.LIST
+			isList = tt == thrift.LIST
 		case PathFieldName:
 			return errNode(meta.ErrUnsupportedType, "", nil)
 		case PathIndex:
+			isList = tt == thrift.LIST
 			tt, start, err = searchIndex(&p, path.int(), isList)
 		case PathStrKey:
 			tt, start, err = searchStrKey(&p, path.str())
